@@ -74,7 +74,7 @@ PROPS = {
   "technique": "Coq structural/real-number theorems over the binary64 model + bit-exact differential replay with reset twins",
  },
  "C01": {
-  "tests": ["TestC01", "TestC01Stress"],
+  "tests": ["TestC01", "TestC01Limiter", "TestC01Stress"],
   "rule": "random acquire/release/SetLimit (0 and negative values included) sequences on the simple and precise strategies, compared step by step with the model; every TryAcquire "
           "is checked against the gate rule; plus a 16-goroutine stress run with a flipping limit and a harness-side holder counter; non-trivial = a distinct (busy, limit, decision)",
   "level_text": "C01_no_over_admission and C01_gate_decision are proved on a transition system with one label per atomic step of Acquire/TryAcquire/Release/SetLimit, for any number of "
@@ -118,5 +118,50 @@ PROPS = {
                 "The windowed limit is decided by replay (model in Limits.v) + oracle.",
   "level_note": "Trusted as C02.",
   "technique": "Coq refinement proof (incremental fold vs list spec) + differential replay",
+ },
+ "C10": {
+  "tests": ["TestC10", "TestC10Races"],
+  "rule": "settled scenarios on a virtual clock (every operation followed by synctest.Wait): arrivals, releases with the three outcomes, cancellations, time steps aimed at timer instants, limit changes, "
+          "through every constructor of the blocking, deadline and queue limiters and the pools; after each release with waiters and room someone must have been granted; plus forced race-window "
+          "replays of the refuted theorems' witness schedules; non-trivial = a release with callers waiting, distinct by (constructor, ordering, busy, limit, waiters, grants)",
+  "level_text": "C10_queue_settled (a release serves the waiter chosen by the ordering in the same operation) and C10_blocking_partial (no stranded sleeper on an unbounded-thread transition system, "
+                "outside the window of F8) are proved; inside the race windows the property is REFUTED on the faithful model by kernel-checked witness schedules (C10_blocking_refuted, "
+                "C10_queue_refuted_*), each replayed on the implementation as a known finding.",
+  "level_note": "Trusted: synctest quiescence detection and virtual clock; the settled model is a separate, coarser model of the same code than the step-level transition systems; Go's sync.Cond / channel semantics as modelled.",
+  "technique": "Coq theorems on settled model + transition-system invariant/refutations + differential replay of scenarios",
+ },
+ "C11": {
+  "tests": ["TestC11"],
+  "rule": "as C10 with 2..13 waiters, arrivals at distinct instants, chosen waiters timing out or cancelled before releases; the grant order is compared with the model and with the oracle "
+          "(oldest / newest still waiting); every constructor is exercised and its installed ordering read back; non-trivial = a release serving one of >= 2 waiters",
+  "level_text": "C11_order + C11_release proved on the settled model (served waiter = oldest/newest still blocked); C11_constructors is a generated-fact obligation over the 14 constructor variants.",
+  "level_note": "Trusted as C10; constructor table regenerated from /repo by tools/tablegen on every run.",
+  "technique": "Coq theorems + generated constructor table obligation + differential replay",
+ },
+ "C12": {
+  "tests": ["TestC12", "TestC12Races"],
+  "rule": "as C10 on queue limiters with small bounds; after every operation backlog length (accessor) and the queue_size gauge are compared with the number of blocked callers; arrivals at a full backlog "
+          "must be refused in the same instant; plus race replays F9b/F11; non-trivial = an arrival at a full backlog",
+  "level_text": "C12_bound proved on the settled model; at step granularity the bound and the exactness are REFUTED (C12_bound_refuted = F11, C12_exact_refuted = F9b), replayed as known findings.",
+  "level_note": "Trusted as C10.",
+  "technique": "Coq theorem + kernel-checked refutations + differential replay",
+ },
+ "C13": {
+  "tests": ["TestC13"],
+  "rule": "as C10 with time steps aimed at due-1/due/due+1 of every timer and at the deadline instant, cancellations at arbitrary instants, already-cancelled contexts; every refusal of a caller that "
+          "had been blocked must happen exactly at its bound, none may stay blocked past it; non-trivial = a bounded refusal / an already-cancelled arrival",
+  "level_text": "C13_cancelled_ctx, C13_after_deadline, C13_wait_timer proved (arrival-time refusals hold no capacity; a waiter's timer is armed at exactly its bound); expiry at the bound is decided by replay "
+                "against the model's timer semantics + oracle (theorem over `advance` in progress).",
+  "level_note": "Trusted as C10; the blocking limiter's timeout is a polling period (as coded), not a bound - it is not listed in the property either.",
+  "technique": "Coq theorems on settled model + differential replay on a virtual clock",
+ },
+ "C19": {
+  "tests": ["TestC19", "TestC19Races"],
+  "rule": "fixed and generic pools, all orderings, limit + 1..4 callers arriving at different instants, holders releasing one at a time after random hold times; holders never exceed the limit and every caller "
+          "must end up served; non-trivial = a completed pool run, distinct by (constructor, ordering, limit, callers)",
+  "level_text": "C19_wiring (generated constructor facts), C19_never_over_* (every operation of every wrapper keeps busy <= limit), C19_served_partial (each release with waiters and room serves one at once; queue pools) proved; "
+                "the random-ordering pool inherits F8, queue pools F9a.",
+  "level_note": "Trusted as C10.",
+  "technique": "Coq invariants on settled model + differential replay",
  },
 }
